@@ -29,8 +29,8 @@ var reviewedPanics = map[string]string{
 	"resolver|not a value-converter": "the asserted vertex is a requirement of the function being resolved that is not the root (root requirements are skipped earlier): value or typedArg, which implement value()",
 	"resolver|final value invalid":   "a chosen path ends at the requirement and every arm of the walk forwards the last seen value (rule ORDER: snapshot after update); reviewed after the fix of the stale-snapshot defect",
 	"Redefine-closure|struct walker error":    "the walked type is the reflect.StructOf result built by the planner: a struct, zero pointers — neither rejection of the struct walker can trigger",
-	"MustFunc|caller-requested":              "panics by contract; not reachable from Call/Convert/Redefine (checked below)",
-	"Graph.KahnSort|cycle":                   "panics by contract on cyclic graphs (property C20); not reachable from Call/Convert/Redefine (checked below)",
+	"MustFunc|by-contract":       "exported; documented to panic on error; not reachable from Call/Convert/Redefine (checked below)",
+	"Graph.KahnSort|by-contract": "exported; documented to panic on cyclic graphs (property C20); not reachable from Call/Convert/Redefine (checked below)",
 }
 
 // reviewedAsserts: unchecked type assertions accepted after review.
@@ -193,9 +193,9 @@ func runPanic(c *Ctx) {
 				if l.Kind == "call" && l.Callee == core.RVIsValid && !l.Pol {
 					desc = "final value invalid"
 				}
-				if l.Kind == "cmp" && l.Op == token.GTR && l.Pol && desc == "" && core.Outer(f).Pkg == p.Graph {
-					desc = "cycle"
-				}
+			}
+			if f.Parent() == nil && f.Object() != nil && f.Object().Exported() && (f.Name() == "MustFunc" || f.Name() == "KahnSort") {
+				desc = "by-contract"
 			}
 			for _, l := range lits {
 				if l.Kind == "ok" && !l.Pol {
@@ -203,9 +203,6 @@ func runPanic(c *Ctx) {
 						desc = "not a value-converter"
 					}
 				}
-			}
-			if desc == "" && f.Name() == "MustFunc" {
-				desc = "caller-requested"
 			}
 			if desc == "" {
 				desc = "unclassified"
@@ -278,7 +275,7 @@ func keysOf(m map[int64]bool) []int64 {
 func (c *Ctx) tablePanic(name, desc, pos string, reachable bool) {
 	key := c.panicRole(name) + "|" + desc
 	why, ok := reviewedPanics[key]
-	if ok && (desc == "caller-requested" || desc == "cycle") {
+	if ok && desc == "by-contract" {
 		// by-contract panics must not be reachable from Call/Convert/Redefine
 		c.R.Add("PANIC", key, name, pos, !reachable, "a function that panics by contract is not reachable from Call, Convert or Redefine", fmt.Sprintf("reachable=%v; %s", reachable, why))
 		return
